@@ -2,6 +2,7 @@ package c06
 
 import (
 	"fmt"
+	"hash/fnv"
 	"os"
 	"runtime/pprof"
 	"sort"
@@ -777,6 +778,8 @@ func runLines(c *lib.Ctx, which string, lines []string) *caseResult {
 		if len(f) == 2 && f[0] == "mode" {
 			if f[1] == "reuse" {
 				rn.w.reuse = true
+			} else if f[1] == "cluster" {
+				rn.w.cluster = true
 			} else {
 				rn.seq = f[1] == "seq"
 			}
@@ -804,6 +807,23 @@ func runLines(c *lib.Ctx, which string, lines []string) *caseResult {
 // operation (one stride per case) and at the end, so that state which is refreshed by being looked
 // at (a memoised key list, …) is seen after several unobserved operations.
 func genCase(c *lib.Ctx, r *lib.RNG, which string) []string {
+	lines := genCasePlain(c, r, which)
+	// One case in four builds the one-to-one nodes of even ids as a symbol.Cluster around the node
+	// (ports `in` and `out` piped to the inner node's, the way ext's block and step nodes are
+	// built): the table sees the same ports, the model is unchanged (`mode cluster` is invisible to
+	// it). Chosen from a hash of the case, not from the RNG: the other cases stay what they were.
+	h := fnv.New32a()
+	for _, l := range lines {
+		h.Write([]byte(l))
+	}
+	if h.Sum32()%4 == 0 {
+		c.Hit("case-cluster-nodes")
+		lines = append([]string{lines[0], "mode cluster"}, lines[1:]...)
+	}
+	return lines
+}
+
+func genCasePlain(c *lib.Ctx, r *lib.RNG, which string) []string {
 	if r.Chance(1, 12) {
 		return genLarge(c, r, which)
 	}
